@@ -409,6 +409,8 @@ def session_events(driver, cfg, script, send_fault=None, lose=None, both=False, 
             for op in script:
                 if op == "enter":
                     s.__enter__()
+                elif op == "exit":
+                    s.__exit__(None, None, None)
                 elif op == "get":
                     s.get(rb.oid_str(MIB[0]))
                 elif op == "get_many":
@@ -450,6 +452,8 @@ def session_events(driver, cfg, script, send_fault=None, lose=None, both=False, 
             for op in script:
                 if op == "enter":
                     await s.__aenter__()
+                elif op == "exit":
+                    await s.__aexit__(None, None, None)
                 elif op == "get":
                     await s.get(rb.oid_str(MIB[0]))
                 elif op == "get_many":
@@ -598,6 +602,9 @@ def run(tier):
             for sc in (["get", "get_many", "get"], ["getnext"], ["fetch"]):
                 sess.append({"driver": driver, "cfg": cfg.describe(), "script": pre + sc, "mode": "limit"})
             sess.append({"driver": driver, "cfg": cfg.describe(), "script": pre + ["get", "getnext", "get_many"], "mode": "delay"})
+        # one session object entered again and again (for oid in oids: with session: session.get(oid)): same limiter throughout
+        for cfg in (Cfg("v2c"), Cfg("v1")):
+            sess.append({"driver": driver, "cfg": cfg.describe(), "script": ["enter", "get", "exit", "enter", "get", "exit", "enter", "get", "exit", "enter", "get_many"], "mode": "limit"})
     # environment deviation (one per run): EAGAIN on the k-th send of the async client, for every k
     for cfg in (Cfg("v2c"), Cfg("v3", auth=2, priv=2, discover=True)):
         for sc, n in ((["get", "get_many", "get"], 3), (["getnext"], 8), (["getbulk", "get"], 4), (["fetch"], 3)):
